@@ -316,7 +316,7 @@ func finish(eng *Engine, prop, verifDir, harnessDir string, runs []*HarnessRun, 
 	exit := 0
 	var knownSeen []string
 	nViol := 0
-	replayDir := filepath.Join(verifDir, "replays", prop)
+	replayDir := filepath.Join(envStr("VERIF_REPLAY_DIR", filepath.Join(verifDir, "replays")), prop)
 	for i, c := range cands {
 		rf := ReplayFile{Property: prop, Harness: c.h.name, Tier: eng.tier, Violation: *c.v}
 		if results != nil {
@@ -461,7 +461,7 @@ func finish(eng *Engine, prop, verifDir, harnessDir string, runs []*HarnessRun, 
 	ev := Evidence{PropertyID: prop, Tier: tierName, Seed: eng.seed, Level: "model_checking", Coverage: cov, Assumptions: assumptions,
 		WallS: time.Since(t0).Seconds(), Violations: nViol}
 	if !devRun {
-		if err := writeJSON(filepath.Join(verifDir, "evidence", prop+".json"), ev); err != nil {
+		if err := writeJSON(filepath.Join(envStr("VERIF_EVIDENCE_DIR", filepath.Join(verifDir, "evidence")), prop+".json"), ev); err != nil {
 			fmt.Println("cannot write evidence:", err)
 			if exit == 0 {
 				exit = 2
